@@ -186,6 +186,21 @@ CHECKS.update({
     ),
 })
 
+CHECKS.update({
+    "C14": (
+        "exploration",
+        "enumerator",
+        "exhaustive enumeration: every model enum/class against api.proto text and descriptors through an independent pairing table; "
+        "every paired wire message x every field x per-type value alphabet (singly on empty and populated messages, and all pairs of fields), "
+        "serialised, parsed and converted by the real from_pb and compared with expectations computed from the wire values alone; float32 "
+        "grid of all 256 exponents x boundary mantissas through every float field; to_dict/from_dict round trip of every value produced",
+        "The structural domain (29 enums, 69 message/model pairs) is finite and fully enumerated; the value domain is covered over the stated "
+        "alphabets completely (one-at-a-time and pairwise), floats over every exponent.",
+        BASE,
+        "DESIGN.md §3 C14",
+    ),
+})
+
 NOT_APPLICABLE: dict[str, str] = {}
 
 
